@@ -16,19 +16,21 @@ import Driver.Pair
 import Driver.Net
 import Driver.PairReq
 import Driver.NetLossy
+import Driver.Facet
+import Driver.NetEph
 open Lean Driver
 
 def dispatch (j : Json) : R Json := do
   let op ← strF j "op"
   let pfx := (op.splitOn ".").headD ""
   match pfx with
-  | "c16" => Driver.C16.handle op j
+  | "c16" => if op == "c16.backend" then Driver.Facet.handle op j else Driver.C16.handle op j
   | "recv" => Driver.Recv.handle op j
   | "send" => Driver.Send.handle op j
   | "loop" => Driver.Loop.handle op j
   | "c09" => Driver.C09.handle op j
   | "c08" => Driver.C08.handle op j
-  | "c18" => if op == "c18.lock" then Driver.C18Lock.handle op j else Driver.C08.handle op j
+  | "c18" => if op == "c18.lock" then Driver.C18Lock.handle op j else if op == "c18.facetnames" then Driver.Facet.handle op j else Driver.C08.handle op j
   | "c10" => Driver.C10.handle op j
   | "c13" => Driver.C13.handle op j
   | "c14" => Driver.C13.handle op j
@@ -39,6 +41,7 @@ def dispatch (j : Json) : R Json := do
   | "pair" => Driver.Pair.handle op j
   | "net" => Driver.Net.handle op j
   | "netl" => Driver.NetLossy.handle op j
+  | "nete" => Driver.NetEph.handle op j
   | "pairreq" => Driver.PairReq.handle op j
   | "ping" => return obj [("pong", Json.bool true)]
   | _ => throw s!"unknown op prefix {pfx}"
